@@ -9,14 +9,14 @@ import (
 // Step is one path step: its text as written and its AST (s-expression)
 // for the reference evaluator.
 type Step struct {
-	Text  string
-	Ast   string
-	Kind  string // name multi wild index union slice desc filter func agg
-	Multi bool   // multi-valued step
-	Holes string // "7001=name;..." numeral holes used by the text
-	Depth int    // document depth this step descends (1 for most, 2 for desc)
-	Funcs bool   // needs the function configuration
-	RootOp bool  // contains a $-rooted filter operand
+	Text   string
+	Ast    string
+	Kind   string // name multi wild index union slice desc filter func agg
+	Multi  bool   // multi-valued step
+	Holes  string // "7001=name;..." numeral holes used by the text
+	Depth  int    // document depth this step descends (1 for most, 2 for desc)
+	Funcs  bool   // needs the function configuration
+	RootOp bool   // contains a $-rooted filter operand
 }
 
 func st(text, ast, kind string, multi bool) Step {
